@@ -24,6 +24,16 @@ WAIT_S = float(os.environ.get("VERIF_C16_WAIT", "30"))     # absolute cap on one
 STALL_S = float(os.environ.get("VERIF_C16_STALL", "1.5"))    # ... and: no thread that is not itself gated moved for this long
 
 
+class _Interpreter:
+    """pseudo namespace for process-wide interpreter state that is set/read through accessor functions"""
+
+
+INTERPRETER = _Interpreter()
+DEFAULT_RECURSION_LIMIT = 1000            # every scenario starts from Python's default, whatever ran before in the process
+AMBIENT = {"recursionlimit": (sys.getrecursionlimit, sys.setrecursionlimit),
+           "switchinterval": (sys.getswitchinterval, sys.setswitchinterval)}
+
+
 def celpy_mod():
     src = os.path.dirname(os.path.dirname(SRC))
     if src not in sys.path:
@@ -155,6 +165,7 @@ class State:
                 for c in list(vars(m).values()):
                     if isinstance(c, type) and (c.__module__ or "").startswith("celpy"):
                         self.spaces[id(c)] = (f"{c.__module__}.{c.__qualname__}", c.__dict__, c)
+        self.ambient = {k: get() for k, (get, _) in AMBIENT.items()}
         self.saved = {ns: dict(d) for ns, (_, d, _) in self.spaces.items()}
         self.saved_fp = {ns: {k: self._fp(v) for k, v in s.items()} for ns, s in self.saved.items()}
 
@@ -178,10 +189,14 @@ class State:
                     out.append((ns, label, k, "rebound"))
                 elif self._fp(d[k]) != fps[k]:
                     out.append((ns, label, k, "mutated"))
+        out += [(id(INTERPRETER), "interpreter", k, "rebound") for k, (get, _) in AMBIENT.items() if get() != self.ambient[k]]
         return out
 
     def restore(self):
         for ns, label, k, how in self.diff():
+            if ns == id(INTERPRETER):
+                AMBIENT[k][1](self.ambient[k])
+                continue
             _, d, cls = self.spaces[ns]
             old = self.saved[ns]
             if how == "mutated":
@@ -196,24 +211,35 @@ class State:
             else:
                 delattr(cls, k)
 
+    def close(self):
+        """leave the process as it was found: the scenario's own initial limit must not leak into later work"""
+        self.restore()
+        sys.setrecursionlimit(self.previous_limit)
+
 
 def initial_state(runner="interp", warm=False):
     """Snapshot of the scenario's initial state.  The parser singleton is cleared (its specialisation to the first
     runner's tree class is C05's subject); `warm`: an earlier Environment of the same runner class already built it."""
     celpy = celpy_mod()
     celpy.CELParser.CEL_PARSER = None
+    previous = sys.getrecursionlimit()
     if warm:
         celpy.Environment(runner_class=celpy.InterpretedRunner if runner == "interp" else celpy.CompiledRunner)
-    return State()
+    sys.setrecursionlimit(DEFAULT_RECURSION_LIMIT)
+    state = State()
+    state.previous_limit = previous
+    return state
 
 
 def solo(runner, programs, bindings, evals=1, state=None):
-    state = state or initial_state(runner)
+    own, state = state is None, state or initial_state(runner)
     out = []
-    for src, b in zip(programs, bindings):
-        state.restore()
-        out.append(workload(runner, src, b, evals)())
-    state.restore()
+    try:
+        for src, b in zip(programs, bindings):
+            state.restore()
+            out.append(workload(runner, src, b, evals)())
+    finally:
+        state.close() if own else state.restore()
     return out
 
 
@@ -297,7 +323,7 @@ class Gates:
 
 def run_forced(runner, programs, bindings, schedule, evals=1, state=None):
     """-> (outcomes per thread, gates).  Real threads, each building its own Environment/program inside the thread."""
-    state = state or initial_state(runner)
+    own, state = state is None, state or initial_state(runner)
     state.restore()
     n = len(programs)
     g = Gates(schedule, n)
@@ -319,7 +345,7 @@ def run_forced(runner, programs, bindings, schedule, evals=1, state=None):
             th.start()
         for th in ths:
             th.join(WAIT_S * (len(schedule) + 2))
-    state.restore()
+    state.close() if own else state.restore()
     return res, g
 
 
@@ -342,13 +368,16 @@ def verdict(solo_res, res, g, target=None):
 
 def forced_schedule(runner, programs, bindings, schedule, evals=1, target=None, warm=False):
     """ok == False iff some thread's outcomes under the forced schedule differ from its outcomes when run alone."""
-    state = initial_state(runner, warm)
-    s = solo(runner, programs, bindings, evals, state)
-    again = solo(runner, programs, bindings, evals, state)
-    if s != again:
-        raise RuntimeError(f"solo outcomes are not deterministic: {s} vs {again}")
-    res, g = run_forced(runner, programs, bindings, schedule, evals, state)
-    if any(r is None for r in res):
-        raise RuntimeError("a thread did not finish")
-    differs, forced, text = verdict(s, res, g, target)
-    return (not differs), text
+    state = initial_state(runner, warm)     # recursion limit 1000, parser singleton cleared / pre-built
+    try:
+        s = solo(runner, programs, bindings, evals, state)
+        again = solo(runner, programs, bindings, evals, state)
+        if s != again:
+            raise RuntimeError(f"solo outcomes are not deterministic: {s} vs {again}")
+        res, g = run_forced(runner, programs, bindings, schedule, evals, state)
+        if any(r is None for r in res):
+            raise RuntimeError("a thread did not finish")
+        differs, forced, text = verdict(s, res, g, target)
+        return (not differs), text
+    finally:
+        state.close()
